@@ -322,3 +322,133 @@ theorem RunInv.envOk {σ : Static} {I : EnvSt → WQ → List WQEvent → Prop} 
     exact ri.run fuel h e1 q1 new a3 hok.2
 
 end Gql.Async
+
+namespace Gql.Async
+open Gql.Spec.Protocol
+
+/-- The invariant holds (for some environment ghost and some queue) at *every* batch boundary. -/
+def AtPrefixes (I : EnvSt → WQ → List WQEvent → Prop) (E : List WQEvent) (bs : List (List WQEvent)) : Prop :=
+  ∀ k, k ≤ bs.length → ∃ e q, I e q (E ++ (bs.take k).flatten)
+
+theorem AtPrefixes.nil {I : EnvSt → WQ → List WQEvent → Prop} {E : List WQEvent} {e : EnvSt} {q : WQ}
+    (h : I e q E) : AtPrefixes I E [] := by
+  intro k hk
+  have : k = 0 := by simpa using hk
+  subst this
+  exact ⟨e, q, by simpa using h⟩
+
+theorem AtPrefixes.cons {I : EnvSt → WQ → List WQEvent → Prop} {E : List WQEvent} {e : EnvSt} {q : WQ}
+    (b : List WQEvent) (bs : List (List WQEvent)) (h0 : I e q E) (h : AtPrefixes I (E ++ b) bs) :
+    AtPrefixes I E (b :: bs) := by
+  intro k hk
+  cases k with
+  | zero => exact ⟨e, q, by simpa using h0⟩
+  | succ k =>
+    obtain ⟨e', q', h'⟩ := h k (by simpa using hk)
+    exact ⟨e', q', by simpa [List.append_assoc] using h'⟩
+
+theorem AtPrefixes.append {I : EnvSt → WQ → List WQEvent → Prop} {E : List WQEvent}
+    (a b : List (List WQEvent)) (ha : AtPrefixes I E a) (hb : AtPrefixes I (E ++ a.flatten) b) :
+    AtPrefixes I E (a ++ b) := by
+  intro k hk
+  by_cases h : k ≤ a.length
+  · obtain ⟨e, q, h'⟩ := ha k h
+    refine ⟨e, q, ?_⟩
+    rw [List.take_append_of_le_length h]; exact h'
+  · have h1 : a.length ≤ k := Nat.le_of_not_le h
+    obtain ⟨e, q, h'⟩ := hb (k - a.length) (by simp at hk; omega)
+    refine ⟨e, q, ?_⟩
+    rw [List.take_append, List.take_of_length_le h1]
+    simpa [List.append_assoc] using h'
+
+theorem RunInv.settle_prefix {σ : Static} {I : EnvSt → WQ → List WQEvent → Prop} (ri : RunInv σ I)
+    (fuel n : Nat) (e : EnvSt) (q : WQ) (acc : List (List WQEvent)) (E : List WQEvent) (e' : EnvSt) (q' : WQ)
+    (h : I e q E) (hok : settleOk σ fuel n e q = some (e', q')) :
+    ∃ new, (Gql.Async.settle σ fuel n q acc).2 = acc ++ new ∧ AtPrefixes I E new := by
+  induction n generalizing e q acc E with
+  | zero => exact ⟨[], by simp [Gql.Async.settle], AtPrefixes.nil h⟩
+  | succ n ih =>
+    cases hs : q.stopped with
+    | true =>
+      rw [settle_stopped σ fuel n q acc hs]
+      exact ⟨[], by simp, AtPrefixes.nil h⟩
+    | false =>
+      cases hc : q.channel with
+      | nil =>
+        cases hd : q.deferred with
+        | nil =>
+          rw [settle_idle σ fuel n q acc hs hc hd]
+          exact ⟨[], by simp, AtPrefixes.nil h⟩
+        | cons d ds =>
+          rw [settle_deferred σ fuel n q acc hs hc d ds hd]
+          rw [settleOk_deferred σ fuel n e q hs hc d ds hd] at hok
+          exact ih e _ acc E (ri.pushes e E (d :: ds) _ (ri.defer e q E [] h)) hok
+      | cons ev rest =>
+        rw [settle_batch σ fuel n q acc hs ev rest hc]
+        cases hdo : drainOk σ fuel e q with
+        | none => rw [settleOk_batch_none σ fuel n e q hs ev rest hc hdo] at hok; cases hok
+        | some r =>
+          obtain ⟨e1, q1⟩ := r
+          have hok' : settleOk σ fuel n e1 (Gql.Async.batch σ fuel q).1 = some (e', q') := by
+            rw [settleOk_batch σ fuel n e q hs ev rest hc e1 q1 hdo] at hok; exact hok
+          have hb := ri.batch fuel e q E e1 q1 h hs hdo
+          obtain ⟨new, a1, a2⟩ := ih e1 _
+            (if (Gql.Async.batch σ fuel q).2.isEmpty then acc else acc ++ [(Gql.Async.batch σ fuel q).2])
+            _ hb hok'
+          cases he : (Gql.Async.batch σ fuel q).2.isEmpty with
+          | true =>
+            simp only [he, if_true] at a1 ⊢
+            have hnil : (Gql.Async.batch σ fuel q).2 = [] := by simpa using he
+            refine ⟨new, a1, ?_⟩
+            simpa [hnil] using a2
+          | false =>
+            simp only [he] at a1 ⊢
+            exact ⟨(Gql.Async.batch σ fuel q).2 :: new, by simpa using a1, AtPrefixes.cons _ _ h a2⟩
+
+theorem RunInv.run_prefix {σ : Static} {I : EnvSt → WQ → List WQEvent → Prop} (ri : RunInv σ I)
+    (fuel : Nat) (h : List Tick) (e : EnvSt) (q : WQ) (bs : List (List WQEvent))
+    (hI : I e q bs.flatten) (hp : AtPrefixes I [] bs) (hok : runOk σ fuel e q h = true) :
+    AtPrefixes I [] (wqRun σ fuel (q, bs) h).2 := by
+  induction h generalizing e q bs with
+  | nil => exact hp
+  | cons t r ih =>
+    unfold runOk at hok
+    cases hs : settleOk σ fuel fuel e (t.foldl Gql.Async.push q) with
+    | none => simp [hs] at hok
+    | some x =>
+      obtain ⟨e1, q1⟩ := x
+      simp only [hs] at hok
+      obtain ⟨new, a1, a2, a3⟩ := ri.settle fuel fuel e _ [] bs.flatten e1 q1 (ri.pushes e _ t q hI) hs
+      obtain ⟨new', b1, b2⟩ := ri.settle_prefix fuel fuel e _ [] bs.flatten e1 q1 (ri.pushes e _ t q hI) hs
+      simp only [List.nil_append] at a1 b1
+      have hnn : new' = new := by rw [← b1, a1]
+      subst hnn
+      simp only [wqRun, wqTick]
+      rw [a1, ← a2]
+      exact ih e1 q1 (bs ++ new') (by simpa using a3)
+        (AtPrefixes.append bs new' hp (by simpa using b2)) hok
+
+/-- The invariant holds at every batch boundary of every well-formed history. -/
+theorem RunInv.envOk_prefix {σ : Static} {I : EnvSt → WQ → List WQEvent → Prop} (ri : RunInv σ I)
+    (fuel : Nat) (work : Option Work) (h : List Tick)
+    (h0 : I (({} : EnvSt).intro work) (startRoots σ (init σ work).1) [])
+    (hok : Gql.Async.envOk σ fuel work h = true) :
+    AtPrefixes I [] (wqRun σ fuel (wqStart σ fuel work) h).2 := by
+  unfold Gql.Async.envOk at hok
+  simp only [Bool.and_eq_true] at hok
+  cases hs : settleOk σ fuel fuel (({} : EnvSt).intro work) (startRoots σ (init σ work).1) with
+  | none => simp [hs] at hok
+  | some x =>
+    obtain ⟨e1, q1⟩ := x
+    simp only [hs] at hok
+    obtain ⟨new, a1, a2, a3⟩ := ri.settle fuel fuel _ _ [] [] e1 q1 h0 hs
+    obtain ⟨new', b1, b2⟩ := ri.settle_prefix fuel fuel _ _ [] [] e1 q1 h0 hs
+    simp only [List.nil_append] at a1 a3 b1
+    have hnn : new' = new := by rw [← b1, a1]
+    subst hnn
+    have : wqStart σ fuel work = (q1, new') := by
+      unfold wqStart; rw [a2]; exact Prod.ext rfl a1
+    rw [this]
+    exact ri.run_prefix fuel h e1 q1 new' a3 b2 hok.2
+
+end Gql.Async
